@@ -18,10 +18,10 @@ package helpers
 //@   requires len(find) > 0
 //@   ensures[range] r == -1 || (0 <= r && r <= len(in) - len(find))
 //@   ensures[hit]   r >= 0 ==> OccursAt(in, r, find)
-//@   ensures[first] forall p int :: 0 <= p && (r < 0 || p < r) ==> !OccursAt(in, p, find)
+//@   ensures[first] forall p int {mark(p)} :: 0 <= p && (r < 0 || p < r) ==> !OccursAt(in, p, find)
 //@   loop 0:
 //@     invariant 0 <= i
-//@     invariant forall p int :: 0 <= p && p < i ==> !OccursAt(in, p, find)
+//@     invariant forall p int {mark(p)} :: 0 <= p && p < i ==> !OccursAt(in, p, find)
 //@     decreases end + 1 - i
 //@   canary ensures[canary] r < 0
 
@@ -151,14 +151,14 @@ package helpers
 //@   requires len(find) > 0
 //@   ensures[range] r == -1 || (0 <= r && r <= len(in) - len(find))
 //@   ensures[hit]   r >= 0 ==> CIOccursAt(in, r, find)
-//@   ensures[first] forall p int :: 0 <= p && (r < 0 || p < r) ==> !CIOccursAt(in, p, find)
+//@   ensures[first] forall p int {mark(p)} :: 0 <= p && (r < 0 || p < r) ==> !CIOccursAt(in, p, find)
 //@   loop 0:
 //@     invariant 0 <= i
-//@     invariant forall p int :: 0 <= p && p < i ==> !CIOccursAt(in, p, find)
+//@     invariant forall p int {mark(p)} :: 0 <= p && p < i ==> !CIOccursAt(in, p, find)
 //@     decreases end + 1 - i
 //@   loop 1:
 //@     invariant 0 <= i && i <= end && CIEq(in[i], find[0])
-//@     invariant forall p int :: 0 <= p && p < i ==> !CIOccursAt(in, p, find)
+//@     invariant forall p int {mark(p)} :: 0 <= p && p < i ==> !CIOccursAt(in, p, find)
 //@     invariant 1 <= j && j <= len(find)
 //@     invariant forall q int :: 0 <= q && q < j ==> CIEq(in[i+q], find[q])
 //@     decreases len(find) - j
@@ -182,14 +182,14 @@ package helpers
 //@   ensures[empty] len(find) == 0 ==> r == 0
 //@   ensures[range] r == -1 || (0 <= r && r <= len(in) - len(find))
 //@   ensures[hit]   r >= 0 ==> AFOccursAt(in, r, find)
-//@   ensures[first] forall p int :: 0 <= p && (r < 0 || p < r) ==> !AFOccursAt(in, p, find)
+//@   ensures[first] forall p int {mark(p)} :: 0 <= p && (r < 0 || p < r) ==> !AFOccursAt(in, p, find)
 //@   loop 0:
 //@     invariant 0 <= i && len(find) > 0
-//@     invariant forall p int :: 0 <= p && p < i ==> !AFOccursAt(in, p, find)
+//@     invariant forall p int {mark(p)} :: 0 <= p && p < i ==> !AFOccursAt(in, p, find)
 //@     decreases end + 1 - i
 //@   loop 1:
 //@     invariant 0 <= i && i <= end && len(find) > 0 && AsciiFold(in[i]) == AsciiFold(find[0])
-//@     invariant forall p int :: 0 <= p && p < i ==> !AFOccursAt(in, p, find)
+//@     invariant forall p int {mark(p)} :: 0 <= p && p < i ==> !AFOccursAt(in, p, find)
 //@     invariant 1 <= j && j <= len(find)
 //@     invariant forall q int :: 0 <= q && q < j ==> AsciiFold(in[i+q]) == AsciiFold(find[q])
 //@     decreases len(find) - j
